@@ -75,6 +75,9 @@ type node struct {
 	sawCancel bool
 	addrCalls int
 	reqCtx    context.Context // context of the (latest) request
+
+	// warm-up (history before the judged call): > 0: answer at once; < 0: answer only when the request is cancelled
+	warm int
 }
 
 func (n *node) url(endpoint string) string {
@@ -164,6 +167,16 @@ func (n *node) scripted(method, endpoint string) error {
 // gate blocks until released or cancelled.
 func (n *node) gate(ctx context.Context, method, endpoint string) error {
 	n.mu.Lock()
+	if w := n.warm; w != 0 { // history calls: not counted, not traced
+		n.mu.Unlock()
+		if w > 0 {
+			return nil
+		}
+		<-ctx.Done()
+
+		return errors.Join(errors.New("failed to call "+method+" endpoint"),
+			&url.Error{Op: method, URL: n.url(endpoint), Err: tagErr{id: n.id, inner: ctx.Err()}})
+	}
 	n.invoked++
 	n.reqCtx = ctx
 	n.mu.Unlock()
@@ -378,6 +391,40 @@ func runOne(t *testing.T, tr *drv.Tracer, sid int, sched []drv.Step) {
 		}
 	}
 
+	// HISTORY: `warm` earlier calls on the same multi client, all answered by node `warmby` while the others were slower (their
+	// requests end when the multi client cancels them).  The statement is about every call on its own; the history only
+	// gives an implementation that remembers something (a "best" node) the chance to lean on it in the judged call.
+	if k, by := drv.Num(cfg["warm"]), drv.Num(cfg["warmby"]); k > 0 && by >= 1 && by <= np+nb {
+		for i := 1; i <= np+nb; i++ {
+			nodes[i].mu.Lock()
+			nodes[i].warm = -1
+			if i == by {
+				nodes[i].warm = 1
+			}
+			nodes[i].mu.Unlock()
+		}
+		for w := 0; w < k; w++ {
+			wctx, wcancel := context.WithTimeout(ctx, time.Minute)
+			done := make(chan struct{})
+			go func() { defer close(done); _ = doCall(wctx, multi, style) }()
+			synctest.Wait()
+			select {
+			case <-done:
+			default: // (a multi client that waits for the slow nodes: let them go)
+				wcancel()
+				<-done
+			}
+			wcancel()
+			tick()
+		}
+		synctest.Wait()
+		for i := 1; i <= np+nb; i++ {
+			nodes[i].mu.Lock()
+			nodes[i].warm, nodes[i].addrCalls = 0, 0
+			nodes[i].mu.Unlock()
+		}
+		t0 = time.Now()
+	}
 	tr.Emit(drv.Step{"ev": "Reset", "sid": sid, "P": np, "B": nb, "style": style, "out": outs, "deaf": deaf, "t": 0})
 	for _, st := range sched[1:] {
 		switch drv.Str(st["ev"]) {
